@@ -16,7 +16,10 @@ MANIFEST = {
              "wildcards implies equal non-whitespace content up to one pair of surrounding quotes under NORMALIZE_REPR), and "
              "monotonicity per leniency switch under explicitly stated guards. The unguarded monotonicity sentence is FALSE of the "
              "unchanged code in four corner classes: each is a kernel-checked witness theorem and a recorded known finding. "
-             "Partial: monotonicity of NORMALIZE/IGNORE_WHITESPACE with ELLIPSIS on is not proved (named *_partial)."),
+             "Monotonicity is proved per switch: ELLIPSIS and NORMALIZE_WHITESPACE for all inputs under the single guard NORMALIZE_REPR off "
+             "(`mono_normalize_whitespace` rests on `ellipsisMatch_collapse`: an ellipsis match survives whitespace collapsing, via "
+             "`splitEllipsis (collapse b) = (splitEllipsis b).map collapse`); IGNORE_WHITESPACE under the additional, necessary guard that deleting "
+             "whitespace does not re-split the want (class K-C05-d otherwise); NORMALIZE_REPR only with ELLIPSIS off (partial)."),
     'note': ("Trusted: Lean kernel, allowed axioms only; hand-written matchers for the six regular expressions (texts pinned from the "
              "source by Pins/Checker.lean; Unicode classes compared with the interpreter on every scalar value); the correspondence "
              "harness (exhaustive token strings x 32 flag settings + mutation-derived random pairs) ties model to checker.py."),
